@@ -130,8 +130,17 @@ HFN void h_check()
     // quiescent content equals the model content of SOME linearization is implied; conservation is checked directly:
     unsigned enq_ok = 0, deq_ok = 0;
     for ( unsigned i = 0; i < NTOT; ++i ) { if ( ops[i].ok ) { if ( ops[i].kind == 0 ) ++enq_ok; else ++deq_ok; } }
-    unsigned left = 0; uint32_t v;
-    for ( unsigned i = 0; i < CAP + 1; ++i ) if ( do_deq( v )) ++left;
+    unsigned left = 0; uint32_t v; uint32_t drained[CAP + 1];
+    for ( unsigned i = 0; i < CAP + 1; ++i ) if ( do_deq( v )) {
+        // what is still inside must be something that was put in (pre-fill or a successful enqueue), each item once
+        bool known = false;
+        for ( unsigned k = 0; k < init_state.n; ++k ) if ( init_state.a[k] == v ) known = true;
+        for ( unsigned k = 0; k < NTOT; ++k ) if ( ops[k].kind == 0 && ops[k].ok && ops[k].arg == v ) known = true;
+        for ( unsigned k = 0; k < NTOT; ++k ) if ( ops[k].kind == 1 && ops[k].ok && ops[k].val == v ) known = false;     // already delivered
+        for ( unsigned k = 0; k < left; ++k ) if ( drained[k] == v ) known = false;
+        VASSERT( known, "drain: every item left in the queue was enqueued, was not delivered before and is intact (none invented, none twice)" );
+        drained[left++] = v;
+    }
     VASSERT( init_state.n + enq_ok == deq_ok + left, "items are conserved (none lost, none invented)" );
 #if ITEM_COUNTER
     VASSERT( Q->size() == 0 && Q->empty(), "size()/empty() agree after draining" );
